@@ -291,3 +291,26 @@ def run(ck):
             ck.ob('C24.backoff', 'C24.backoff/deadline-from-now/%s#%d' % (f.name.split('::')[-1], n_na), ok_t, f.loc(s_),
                   'next_attempt is set to now, now + delay, or time_point::max() — never derived from the previous deadline (found %r)' % (t,))
     ck.floor('C24.backoff', 'assignments of next_attempt', n_na, 3)
+
+    # ---- the attempt counter restarts only for a new entry or a different provider -----------------------------------------------------------------
+    from sa.canon import canon as _c24b, norm as _n24b
+    saf = P.fn(N + 'schedule_assigned_fetch')
+    ck.touch(saf)
+    resets = [(l_, r_, s_) for l_, r_, s_ in _asg24(saf) if saf.nodes[saf.strip(l_, casts=False)].get('m') == PFS + 'attempts' and const_value(saf, r_) == 0]
+    ck.floor('C24.backoff', 'resets of the attempt counter in schedule_assigned_fetch', len(resets), 2)
+    odd24 = []
+    for l_, r_, s_ in resets:
+        guard = next((saf.nodes[a]['cond'] for a in saf.ancestors(s_) if saf.nodes[a]['k'] == 'IfStmt'), None)
+        t_ = repr(_n24b(_c24b(saf, guard))) if guard is not None else 'unconditional'
+        cmp_ = comparison(saf, guard) if guard is not None else None
+        if cmp_ is None and guard is not None and saf.nodes[saf.strip(guard)]['k'] == 'UnaryOperator' and saf.nodes[saf.strip(guard)].get('op') == '!':
+            inner_ = comparison(saf, saf.kids(saf.strip(guard))[0])          # C++20 rewrites a != b as !(a == b)
+            if inner_ is not None and inner_[0] == '==':
+                cmp_ = ('!=', inner_[1], inner_[2])
+        ok_ = guard is not None and (t_ == repr(('v', 'inserted')) or
+                                     (cmp_ is not None and cmp_[0] == '!=' and all((saf.nodes[saf.strip(x)].get('m') or saf.nodes[saf.strip(x)].get('n') or '').endswith('peer_id') for x in cmp_[1:])))
+        if not ok_:
+            odd24.append((s_, t_))
+    ck.ob('C24.backoff', 'C24.backoff/attempts-reset-only-for-new-provider', not odd24, saf.loc(odd24[0][0]) if odd24 else saf.loc(),
+          'schedule_assigned_fetch zeroes `attempts` only for a freshly inserted entry or when the announcing peer differs from the stored one '
+          '(a re-announcement by the same provider must not restart the attempt limit and the back-off)' + ('' if not odd24 else ' — under %s' % odd24[0][1][:80]))
